@@ -306,6 +306,11 @@ func (s *sniffer) Read(p []byte) (int, error) {
 	if s.bufferSize > s.bufferRead {
 		bn := copy(p, s.buffer.Bytes()[s.bufferRead:s.bufferSize])
 		s.bufferRead += bn
+		if s.bufferRead < s.bufferSize {
+			// sniffed bytes are still pending: the error that came with the
+			// last sniffed read must not be reported ahead of them
+			return bn, nil
+		}
 		return bn, s.lastErr
 	} else if !s.sniffing && s.buffer.Cap() != 0 {
 		s.buffer = bytes.Buffer{}
